@@ -218,6 +218,7 @@ def make_units(tier):
             units.append(dict(u, src='c10', monitors=['legality']))
         for u in c09.make_units(tier):
             if u.get('kind') == 'collector':
+                units.append(dict(u, src='collector', rules='C08', name='collector-take-legality'))
                 continue
             if u['bound'] > 1:
                 continue  # quick: the cancel family at bound 1 under both policies (bound 2 is in C09's own check and in the thorough tier)
@@ -237,6 +238,7 @@ def make_units(tier):
         seen = set()
         for u in fam:
             if u.get('kind') == 'collector':
+                units.append(dict(u, src='collector', rules='C08', name='collector-take-legality'))
                 continue
             if u['flavour'] == 'tcp':
                 units.append(dict(u, src=src, monitors=['legality']))
@@ -269,6 +271,8 @@ def run_unit(unit, part):
         return run_negotiation(unit, part)
     if unit.get('src') == 'sources':
         return run_sources(unit, part)
+    if unit.get('src') == 'collector':
+        return c09.run_unit(unit, part)
     dev_explore(scenario_of(unit), unit['bound'], part, shard=tuple(unit['shard']), det_every=200)
 
 
@@ -292,6 +296,8 @@ def replay(rec):
         for v in p.violations.values():
             print(v.rule, '|', v.detail[:300])
         return rec['signature'] in p.violations
+    if w.get('kind') == 'collector':
+        return c09.replay(rec)
     if w.get('kind') == 'lease':
         from mc.runner import Partial
         p = Partial()
